@@ -90,7 +90,8 @@ def bond_text(m, a, b, at, rng, explicit=0.1):
     return '-' if rng.random() < explicit else ''
 
 
-def respell(m, rng, shuffle=True, digits_after_branches=0.15, variants=True):
+def respell(m, rng, shuffle=True, digits_after_branches=0.15, variants=True, ring_sym=None):
+    # ring_sym: None = random; 'open' / 'close' = a ring bond that needs a symbol carries it on that digit only
     """-> (smiles, order) ; order[k] = original index of the k-th written atom"""
     n = len(m.atoms)
     seen = [False] * n
@@ -173,7 +174,7 @@ def respell(m, rng, shuffle=True, digits_after_branches=0.15, variants=True):
                 mark_here = bd['marks'].get(v)
                 if k in ring_label:                      # closing end
                     lab = ring_label.pop(k)
-                    write_sym = bool(mark_here) or (need and not ring_written[k]) or (need and rng.random() < 0.3) \
+                    write_sym = bool(mark_here) or (need and not ring_written[k]) or (need and ring_sym is None and rng.random() < 0.3) \
                         or (not need and not bd['marks'] and rng.random() < 0.04)
                     btxt = bond_text(m, v, other, v, rng, explicit=1.0) if write_sym else ''
                     digit_items.append(btxt + label_text(lab))
@@ -181,7 +182,8 @@ def respell(m, rng, shuffle=True, digits_after_branches=0.15, variants=True):
                 else:                                    # opening end
                     lab = free.pop(0) if not shuffle or rng.random() < 0.7 else free.pop(rng.randrange(min(len(free), 12)))
                     ring_label[k] = lab
-                    write_sym = bool(mark_here) or (need and rng.random() < 0.5) or (not need and not bd['marks'] and rng.random() < 0.04)
+                    write_sym = bool(mark_here) or (need and (rng.random() < 0.5 if ring_sym is None else ring_sym == 'open')) \
+                        or (not need and not bd['marks'] and rng.random() < 0.04)
                     btxt = bond_text(m, v, other, v, rng, explicit=1.0) if write_sym else ''
                     ring_written[k] = write_sym
                     digit_items.append(btxt + label_text(lab))
@@ -226,6 +228,13 @@ def respell(m, rng, shuffle=True, digits_after_branches=0.15, variants=True):
 
 def mutate_mol(m, rng):
     m = m.copy()
+    # declare a ring-fusion bond between two aromatic atoms single (it must then be written '-', at either ring digit or in the chain)
+    if rng.random() < 0.25:
+        fused = [k for k, b in m.bonds.items() if b['order2'] == 3
+                 and sum(1 for w in m.adj[k[0]] if m.bonds[(min(k[0], w), max(k[0], w))]['order2'] == 3) == 3
+                 and sum(1 for w in m.adj[k[1]] if m.bonds[(min(k[1], w), max(k[1], w))]['order2'] == 3) == 3]
+        if fused:
+            m.bonds[rng.choice(fused)]['order2'] = 2
     for _ in range(rng.randint(1, 3)):
         i = rng.randrange(len(m.atoms))
         a = m.atoms[i]
